@@ -180,12 +180,17 @@ theorem expectedCharAndError_ne_eof {ty : TokenType} {x : Char × ErrorKind} (h 
     ty ≠ .EOF := by
   intro he; subst he; simp [expectedCharAndError] at h
 
+theorem expectedChar_ne_nl {ty : TokenType} {ec : Char} {ek : ErrorKind}
+    (h : expectedCharAndError ty = some (ec, ek)) : ec ≠ '\n' := by
+  unfold expectedCharAndError at h
+  split at h <;> simp at h <;> (obtain ⟨rfl, _⟩ := h; decide)
+
 theorem lexExpectedToken_safe (cfg : Cfg) (nc : Option Char) (ty : TokenType) (ch : Channel)
-    (hnc : ∀ c, nc = some c → c ≠ '\n') {r : List Char} (hr : nc = r.head?) {Q : Unit → List Char → Bool → Prop}
+    {r : List Char} (hr : nc = r.head?) {Q : Unit → List Char → Bool → Prop}
     (hQ : ∀ r', Q () r' false) : awp (lexExpectedToken cfg nc ty ch) Q r false := by
   unfold lexExpectedToken
   awp_auto []
-  all_goals (first | exact hQ _ | exact absurd ‹ty = _› (expectedCharAndError_ne_eof ‹_›) | (simp_all; done) | grind)
+  all_goals (first | exact hQ _ | exact absurd ‹ty = _› (expectedCharAndError_ne_eof ‹_›) | (simp_all; done) | (have h0 := expectedChar_ne_nl ‹expectedCharAndError ty = _›; grind) | grind)
 
 theorem lexNumericLiteral_safe (cfg : Cfg) (sd : Bool) : Safe (lexNumericLiteral cfg sd) := by
   intro r
